@@ -160,6 +160,12 @@ class E:
     def __pos__(self):
         return self
 
+    def __abs__(self):
+        sg = self._sign()
+        if sg is None:
+            raise TraceError("abs() of value with unknown sign")
+        return self if sg >= 0 else -self
+
     def __pow__(self, n):
         if isinstance(n, E) and n.is_const():
             n = n.value()
